@@ -26,10 +26,10 @@ fn holds(syn: &CommentSyntax, p: &Program, crlf: bool, final_nl: bool, expect_ig
             }
             let got = impl_classes(syn, &text)?;
             let want = p.truth();
-            if got == want {
+            if got.chars().count() == want.chars().count() && got.chars().zip(want.chars()).all(|(a, b)| b == '?' || a == b) {
                 Ok(())
             } else {
-                let at = got.chars().zip(want.chars()).position(|(a, b)| a != b).unwrap_or(0);
+                let at = got.chars().zip(want.chars()).position(|(a, b)| b != '?' && a != b).unwrap_or(0);
                 Err(format!("line {} classified {} but is {} by construction (got {got}, truth {want})", at + 1, got.chars().nth(at).unwrap_or('?'), want.chars().nth(at).unwrap_or('?')))
             }
         }
@@ -242,6 +242,81 @@ pub fn families() -> Vec<Family> {
     builtins().iter().map(|(n, s)| Family::of(n, s)).collect()
 }
 
+/// The classification as the user sees it: hazard-free programs with ignore directives are
+/// written to files and checked by the binary, once with the default settings and once with
+/// comments and blank lines counted.  The per-file statistics must be the constructed ones, and
+/// the enforced count must be code (+ comment + blank when configured) and never an ignored line.
+fn e2e_batch(sink: &mut Sink, r: &mut Rng, fams: &[Family], bin: &str, scratch: &str) {
+    if !sink.want() {
+        sink.skip();
+        return;
+    }
+    let dir = std::path::PathBuf::from(scratch).join(format!("e{}", sink.n));
+    let _ = std::fs::remove_dir_all(&dir);
+    std::fs::create_dir_all(dir.join("src")).unwrap();
+    let reg = sloc_guard::language::LanguageRegistry::default();
+    let mut exts: Vec<String> = vec![];
+    // name, code, comment, blank, ignored
+    let mut expect: Vec<(String, usize, usize, usize, usize)> = vec![];
+    let mut k = 0;
+    while expect.len() < 30 && k < 200 {
+        k += 1;
+        let f = &fams[r.below(fams.len())];
+        let Some(lang) = reg.all().iter().find(|l| l.name == f.name && !l.extensions.is_empty()) else { continue };
+        let pieces = r.range(2, 8);
+        let p = program(r, f, pieces, &[], true);
+        let truth = p.truth();
+        if truth.contains('?') {
+            continue;
+        }
+        let ext = lang.extensions[0].trim_start_matches('.').to_string();
+        if !exts.contains(&ext) {
+            exts.push(ext.clone());
+        }
+        let name = format!("src/f{}.{ext}", expect.len());
+        std::fs::write(dir.join(&name), p.text(false, true)).unwrap();
+        let n = |c: char| truth.chars().filter(|x| *x == c).count();
+        expect.push((name, n('c'), n('m'), n('b'), n('i')));
+    }
+    let list = exts.iter().map(|e| format!("\"{e}\"")).collect::<Vec<_>>().join(", ");
+    let mut pred: Option<String> = None;
+    let mut seen_ignored = false;
+    for (label, extra, args) in [
+        ("defaults", "", vec![]),
+        ("skip_comments = false, skip_blank = false", "skip_comments = false\nskip_blank = false\n", vec![]),
+        ("--count-comments --count-blank", "", vec!["--count-comments", "--count-blank"]),
+    ] {
+        std::fs::write(dir.join(".sloc-guard.toml"), format!("version = \"2\"\n[scanner]\ngitignore = false\n[content]\nmax_lines = 100000\nextensions = [{list}]\n{extra}")).unwrap();
+        let mut argv = vec!["check", "--no-sloc-cache", "--format", "json"];
+        argv.extend(args.iter());
+        argv.push(".");
+        let o = std::process::Command::new(bin).args(&argv).current_dir(&dir).env("NO_COLOR", "1").output().expect("run sloc-guard");
+        let v: serde_json::Value = serde_json::from_slice(&o.stdout).unwrap_or(serde_json::Value::Null);
+        let all = label != "defaults";
+        for (name, c, m, b, i) in &expect {
+            if *c + *m + *b + *i == 0 {
+                continue;
+            }
+            seen_ignored |= *i > 0;
+            let Some(res) = v.get("results").and_then(|x| x.as_array()).and_then(|a| a.iter().find(|x| x.get("path").and_then(|p| p.as_str()).is_some_and(|p| p.trim_start_matches("./") == name))) else {
+                pred = pred.or(Some(format!("{name} is missing from `check` ({label})")));
+                continue;
+            };
+            let g = |k: &str| res.get("stats").and_then(|s| s.get(k)).and_then(|x| x.as_u64()).unwrap_or(u64::MAX) as usize;
+            if pred.is_none() && (g("code"), g("comment"), g("blank"), g("total")) != (*c, *m, *b, c + m + b + i) {
+                pred = Some(format!("{name} ({label}): constructed code/comment/blank/total {:?}, `check` shows {:?}", (c, m, b, c + m + b + i), (g("code"), g("comment"), g("blank"), g("total"))));
+            }
+            let want = if all { c + m + b } else { *c };
+            let sloc = res.get("sloc").and_then(|x| x.as_u64()).unwrap_or(u64::MAX) as usize;
+            if pred.is_none() && sloc != want {
+                pred = Some(format!("{name} ({label}): the enforced count is {sloc}, the lines that count are {want} (code {c}, comment {m}, blank {b}, ignored {i})"));
+            }
+        }
+    }
+    let _ = std::fs::remove_dir_all(&dir);
+    sink.push(Case { request: "noop".into(), implementation: "-".into(), pred: pred.map_or_else(|| "ok".to_string(), |p| format!("FAIL {p}")), tag: format!("e2e/{}", if seen_ignored { "with-ignored-lines" } else { "plain" }) });
+}
+
 pub fn run(tier: Tier, seed: u64, out: &str) {
     let mut sink = Sink::create(out);
     let mut r = Rng::new(seed);
@@ -281,6 +356,13 @@ pub fn run(tier: Tier, seed: u64, out: &str) {
                     emit(&mut sink, f, &p, crlf, final_nl, ignored, "ignore-file");
                 }
             }
+        }
+    }
+    if let Ok(bin) = std::env::var("SGVERIF_BIN") {
+        let scratch = std::env::var("SGVERIF_SCRATCH").unwrap_or_else(|_| "/verif/.build/scratch/c02".to_string());
+        for _ in 0..tier.scale(4, 60) {
+            let mut rr = r.fork();
+            e2e_batch(&mut sink, &mut rr, &fams, &bin, &scratch);
         }
     }
     sink.extra.insert("trivial_tag_prefixes".into(), serde_json::json!([]));
